@@ -578,14 +578,14 @@ func checkEventSwitch(p *Prog, r *Report, ru *Rule) {
 		ru.Unproven("iobroker", token.NoPos, "package not found")
 		return
 	}
-	evT := pk.Types.Scope().Lookup("EventType")
+	evT := lookupObj(pk, "EventType")
 	if nil == evT {
 		ru.Unproven("EventType", token.NoPos, "type not found")
 		return
 	}
 	consts := map[string]string{}
 	for _, n := range pk.Types.Scope().Names() {
-		if c, ok := pk.Types.Scope().Lookup(n).(*types.Const); ok && types.Identical(c.Type(), evT.Type()) {
+		if c, ok := lookupObj(pk, n).(*types.Const); ok && types.Identical(c.Type(), evT.Type()) {
 			consts[strings.Trim(c.Val().ExactString(), `"`)] = n
 		}
 	}
